@@ -1,7 +1,6 @@
 //! C03 – printed log lines are never erased, duplicated or reordered: log-heavy histories over a
 //! MultiProgress whose refresh limiter is exhausted most of the time, every drop order, both
 //! alignments; correspondence with model/Sys.v + the screen oracle (sysoracle.rs).
-use verif_harness::spy::TOp;
 use verif_harness::sysoracle::*;
 use verif_harness::sysrun::*;
 use verif_harness::*;
@@ -30,93 +29,13 @@ fn main() {
         cfg.bottom = i % 3 == 1;
         cases.push(gen_multi_case(&mut r, &cfg));
     }
-    run_sys_cases(&mut s, &cases, &|c, obs| {
+    run_sys_cases_mode(&mut s, &cases, &|c, obs| {
         let logs = c.ops.iter().filter(|(_, o)| matches!(o, Op::Println(..) | Op::MPrintln(_) | Op::Suspend(..) | Op::MSuspend(_))).count();
         let skipped = obs.iter().filter(|o| o.emitted.is_empty()).count();
         let drops = c.ops.iter().filter(|(_, o)| matches!(o, Op::Drop(_))).count();
         logs >= 2 && (skipped >= 1 || drops >= 1)
-    });
-    reclassify_bottom(&mut s, &cases);
+    }, false); // kept rows of finished, dropped bars are not C03's business (C04/C19 check them)
     s.finish();
-}
-
-/// see c02.rs: the lump class of sysoracle::classify() split into narrow, decidable classes
-fn reclassify_bottom(s: &mut Session, cases: &[Case]) {
-    const LUMP: &str = "bottom-alignment-shrunken-frame";
-    // keyed on the replay predicate, not on the oracle's class name: region-type failures only
-    let region_type = |c: &str| c == LUMP || c.starts_with("region-mismatch") || c == "clear-left-rows";
-    let mut moved: Vec<(String, String)> = vec![];
-    for f in s.failures.iter_mut().filter(|f| region_type(&f.class)) {
-        let log_failure = f.detail.contains("the lines printed so far are") || f.detail.contains("the first rows of the screen are");
-        let (mut empty_frame, mut kept, mut bottom_ever) = (false, false, false);
-        if let Some(c) = cases.iter().find(|c| describe(c) == f.case) {
-            let obs = run_case(c);
-            let mut bottom = false;
-            let mut padded_frame_seen = false;
-            let mut dropped_member = false;
-            let mut member = vec![false; c.bars.len()];
-            for ((_, op), o) in c.ops.iter().zip(obs.iter()) {
-                match op {
-                    Op::SetAlign(b) => {
-                        bottom = *b;
-                        bottom_ever |= *b;
-                    }
-                    Op::Insert(_, b) => member[*b] = true,
-                    Op::Remove(b) => member[*b] = false,
-                    _ => {}
-                }
-                let painted = o.emitted.iter().any(|x| *x == TOp::Flush);
-                let cleared = o.emitted.iter().any(|x| *x == TOp::Clear);
-                let wrote = o.emitted.iter().any(|x| matches!(x, TOp::Str(_)));
-                let padding = o.emitted.iter().enumerate().any(|(i, x)| {
-                    matches!(x, TOp::Line(l) if l.is_empty()) && (i == 0 || !matches!(o.emitted[i - 1], TOp::Str(_)))
-                });
-                if painted {
-                    // the last painted frame has padding rows (shift > 0)
-                    padded_frame_seen = bottom && padding;
-                    if padded_frame_seen && dropped_member {
-                        kept = true; // a zombie may be reaped by this padded frame
-                    }
-                    if padded_frame_seen && cleared && !wrote {
-                        empty_frame = true;
-                    }
-                }
-                if let Op::Drop(b) = op {
-                    if member[*b] {
-                        dropped_member = true;
-                        if padded_frame_seen {
-                            kept = true; // reaped at the head right after a padded frame
-                        }
-                    }
-                }
-            }
-        }
-        let narrow = if !bottom_ever {
-            continue;
-        } else if log_failure {
-            "bottom-println-text-below-padding"
-        } else if kept {
-            "bottom-alignment-kept-rows-misplaced"
-        } else if empty_frame {
-            "bottom-alignment-empty-frame-drift"
-        } else if f.class == LUMP {
-            "bottom-alignment-other"
-        } else {
-            continue;
-        };
-        moved.push((f.class.clone(), narrow.to_string()));
-        f.class = narrow.to_string();
-    }
-    for (old, new) in moved {
-        let k = format!("oracle_failure:{old}");
-        if let Some(v) = s.dist.get_mut(&k) {
-            *v = v.saturating_sub(1);
-            if *v == 0 {
-                s.dist.remove(&k);
-            }
-        }
-        s.count(&format!("oracle_failure:{new}"));
-    }
 }
 
 fn corpus() -> Vec<Case> {
